@@ -47,7 +47,8 @@ type QuerySpec struct {
 }
 
 // Follow is the entry point of a follower process.
-//   C01_HISTORY, C01_TRACE, C01_VARIANT (json), C01_DBDIR, C01_QUERIES, C01_RESUME=1
+//
+//	C01_HISTORY, C01_TRACE, C01_VARIANT (json), C01_DBDIR, C01_QUERIES, C01_RESUME=1
 func Follow() int {
 	var v Variant
 	if err := json.Unmarshal([]byte(os.Getenv("C01_VARIANT")), &v); err != nil {
@@ -168,7 +169,7 @@ func Follow() int {
 	// as on a node (CometBFT keeps CheckTx out only while Commit runs: mempoolMu)
 	var mempoolMu sync.RWMutex
 	var curBlock atomic.Int64
-	var nCheck atomic.Int64
+	var nCheck, nSim atomic.Int64
 	if v.Noisy {
 		wg.Add(1)
 		go func() {
@@ -185,6 +186,12 @@ func Follow() int {
 				mempoolMu.RLock()
 				func() {
 					defer func() { _ = recover() }()
+					if k%4 == 3 {
+						// what a wallet does before it sends: the transaction simulated (full execution in simulate mode)
+						_, _ = app.Query(context.Background(), &abci.RequestQuery{Path: "/app/simulate", Data: tx})
+						nSim.Add(1)
+						return
+					}
 					_, _ = app.CheckTx(&abci.RequestCheckTx{Tx: tx, Type: abci.CheckTxType_New})
 				}()
 				mempoolMu.RUnlock()
@@ -264,7 +271,7 @@ func Follow() int {
 		return 3
 	}
 	if v.Noisy {
-		_ = os.WriteFile(os.Getenv("C01_TRACE")+".queries", []byte(fmt.Sprintf("%d %d", nq.Load(), nCheck.Load())), 0o644)
+		_ = os.WriteFile(os.Getenv("C01_TRACE")+".queries", []byte(fmt.Sprintf("%d %d %d", nq.Load(), nCheck.Load(), nSim.Load())), 0o644)
 	}
 	if v.LevelDB {
 		_ = db.Close()
